@@ -5,6 +5,9 @@
 //        N=<int> D=<int> seed=<int> wd=<seconds> [lr=<double>] [perp=<double>] [theta=<double>] [sq=<double>]
 //        [maxit=<int>] [width=<double>] [ts=<int>] [speg=<0|1>] [spen=<int>] [spetol=<double>]
 //        [fae=<double>] [cc=<0|1>] [nshift=<double>] [kshift=<double>]
+//        [unset=<comma list of d,k,nm,em>]   keywords NOT passed (the library default is used)
+//        [par=<T>]   the call is made from INSIDE an `omp parallel num_threads(T)` region of the
+//                    application, once per thread (same request, private output)
 //   X <N*D doubles, sample-major (sample 0 first)>
 // Output (every line flushed):
 //   C <id>                                 marker printed BEFORE the call (a crash/hang belongs to it)
@@ -16,6 +19,7 @@
 //                                          rowtie = 1 if PassThru output equals the features / n.a. (1)
 //   R <id> EXC <name>                      a documented tapkee exception type
 //   R <id> UNDOC <what>                    any other exception (not documented -> violation)
+//   Q <id> <t> <same payload as R>         par mode: the outcome seen by thread t >= 1 (R = thread 0)
 //   T <id>                                 the in-process watchdog (alarm) fired: the call hangs
 // The process exits after a T line (exit code 7); sanitizer / assertion aborts end it as well: the
 // Python side attributes the failure to the last marker and restarts after that case.
@@ -26,6 +30,7 @@
 #include <cstring>
 #include <iostream>
 #include <map>
+#include <omp.h>
 #include <sstream>
 #include <string>
 #include <unistd.h>
@@ -77,6 +82,88 @@ static const DimensionReductionMethod* method_by_name(const std::string& s)
     return it == tbl.end() ? nullptr : it->second;
 }
 
+// one call of tapkee::embed; the outcome as the payload of an R line
+static std::string call_embed(std::vector<IndexType>& idx, eigen_kernel_callback& kcb, eigen_distance_callback& dcb,
+                              eigen_features_callback& fcb, const ParametersSet& ps,
+                              const DimensionReductionMethod& m, const DenseMatrix& X, int N, int D)
+{
+    char buf[256];
+    try
+    {
+        TapkeeOutput out = embed(idx.begin(), idx.end(), kcb, dcb, fcb, ps);
+        long nonfinite = 0;
+        const DenseMatrix& E = out.embedding;
+        for (Eigen::Index i = 0; i < E.rows(); i++)
+            for (Eigen::Index j = 0; j < E.cols(); j++)
+                if (!std::isfinite(E(i, j)))
+                    nonfinite++;
+        int rowtie = 1;
+        if (m == PassThru)
+        {
+            if (E.rows() != N || E.cols() != D)
+                rowtie = 0;
+            else
+                for (int i = 0; i < N && rowtie; i++)
+                    for (int j = 0; j < D; j++)
+                        if (!(E(i, j) == X(j, i)))
+                        {
+                            rowtie = 0;
+                            break;
+                        }
+        }
+        snprintf(buf, sizeof buf, "OK %ld %ld %ld %d", (long)E.rows(), (long)E.cols(), nonfinite, rowtie);
+        return buf;
+    }
+    catch (const tapkee::wrong_parameter_error&)
+    {
+        return "EXC wrong_parameter_error";
+    }
+    catch (const tapkee::wrong_parameter_type_error&)
+    {
+        return "EXC wrong_parameter_type_error";
+    }
+    catch (const tapkee::missed_parameter_error&)
+    {
+        return "EXC missed_parameter_error";
+    }
+    catch (const tapkee::multiple_parameter_error&)
+    {
+        return "EXC multiple_parameter_error";
+    }
+    catch (const tapkee::unsupported_method_error&)
+    {
+        return "EXC unsupported_method_error";
+    }
+    catch (const tapkee::not_enough_memory_error&)
+    {
+        return "EXC not_enough_memory_error";
+    }
+    catch (const tapkee::cancelled_exception&)
+    {
+        return "EXC cancelled_exception";
+    }
+    catch (const tapkee::eigendecomposition_error&)
+    {
+        return "EXC eigendecomposition_error";
+    }
+    catch (const tapkee::no_data_error&)
+    {
+        return "EXC no_data_error";
+    }
+    catch (const std::exception& ex)
+    {
+        std::string w = ex.what();
+        for (auto& c : w)
+            if (c == '\n' || c == '\r')
+                c = ' ';
+        return "UNDOC std::exception:" + w.substr(0, 200);
+    }
+    catch (...)
+    {
+        return "UNDOC unknown";
+    }
+}
+
 int main()
 {
     std::ios::sync_with_stdio(true);
@@ -126,12 +213,20 @@ int main()
             printf("C %ld\nR %ld BADCASE unknown-method\n", id, id);
             continue;
         }
+        const std::string unset = "," + (kv.count("unset") ? kv["unset"] : std::string()) + ",";
+        const bool unset_d = unset.find(",d,") != std::string::npos, unset_k = unset.find(",k,") != std::string::npos;
+        const bool unset_nm = unset.find(",nm,") != std::string::npos;
         ParametersSet ps;
         ps.add(method = *m);
-        ps.add(target_dimension = (IndexType)atoi(kv["d"].c_str()));
-        ps.add(num_neighbors = (IndexType)atoi(kv["k"].c_str()));
-        const std::string nm = kv["nm"], em = kv["em"];
-        if (nm == "brute")
+        if (!unset_d)
+            ps.add(target_dimension = (IndexType)atoi(kv["d"].c_str()));
+        if (!unset_k)
+            ps.add(num_neighbors = (IndexType)atoi(kv["k"].c_str()));
+        const std::string nm = kv["nm"], em = unset.find(",em,") != std::string::npos ? std::string("default") : kv["em"];
+        if (unset_nm)
+        {
+        }
+        else if (nm == "brute")
             ps.add(neighbors_method = Brute);
         else if (nm == "vptree")
             ps.add(neighbors_method = VpTree);
@@ -198,6 +293,7 @@ int main()
                                    kv["m"] == "lisomap" || kv["m"] == "ms" ||
                                    (kv["m"] == "spe" && kv.count("speg") && kv["speg"] == "0"));
             if ((kernel_nb || plain_nb) && kk >= 3 && kk < N && kv.count("nbdump"))
+            try
             {
                 typedef std::vector<IndexType>::iterator It;
                 const bool cc = kv.count("cc") ? (kv["cc"] == "1") : true;
@@ -229,74 +325,36 @@ int main()
                 }
                 fflush(stdout);
             }
-            TapkeeOutput out = embed(idx.begin(), idx.end(), kcb, dcb, fcb, ps);
-            alarm(0);
-            long nonfinite = 0;
-            const DenseMatrix& E = out.embedding;
-            for (Eigen::Index i = 0; i < E.rows(); i++)
-                for (Eigen::Index j = 0; j < E.cols(); j++)
-                    if (!std::isfinite(E(i, j)))
-                        nonfinite++;
-            int rowtie = 1;
-            if (*m == PassThru)
+            catch (...)
             {
-                if (E.rows() != N || E.cols() != D)
-                    rowtie = 0;
-                else
-                    for (int i = 0; i < N && rowtie; i++)
-                        for (int j = 0; j < D; j++)
-                            if (!(E(i, j) == X(j, i)))
-                            {
-                                rowtie = 0;
-                                break;
-                            }
+                // find_neighbors itself threw: no NB line, embed() below reports the same exception
             }
-            printf("R %ld OK %ld %ld %ld %d\n", id, (long)E.rows(), (long)E.cols(), nonfinite, rowtie);
-        }
-        catch (const tapkee::wrong_parameter_error&)
-        {
-            alarm(0);
-            printf("R %ld EXC wrong_parameter_error\n", id);
-        }
-        catch (const tapkee::wrong_parameter_type_error&)
-        {
-            alarm(0);
-            printf("R %ld EXC wrong_parameter_type_error\n", id);
-        }
-        catch (const tapkee::missed_parameter_error&)
-        {
-            alarm(0);
-            printf("R %ld EXC missed_parameter_error\n", id);
-        }
-        catch (const tapkee::multiple_parameter_error&)
-        {
-            alarm(0);
-            printf("R %ld EXC multiple_parameter_error\n", id);
-        }
-        catch (const tapkee::unsupported_method_error&)
-        {
-            alarm(0);
-            printf("R %ld EXC unsupported_method_error\n", id);
-        }
-        catch (const tapkee::not_enough_memory_error&)
-        {
-            alarm(0);
-            printf("R %ld EXC not_enough_memory_error\n", id);
-        }
-        catch (const tapkee::cancelled_exception&)
-        {
-            alarm(0);
-            printf("R %ld EXC cancelled_exception\n", id);
-        }
-        catch (const tapkee::eigendecomposition_error&)
-        {
-            alarm(0);
-            printf("R %ld EXC eigendecomposition_error\n", id);
-        }
-        catch (const tapkee::no_data_error&)
-        {
-            alarm(0);
-            printf("R %ld EXC no_data_error\n", id);
+            const int par = kv.count("par") ? atoi(kv["par"].c_str()) : 0;
+            if (par <= 0)
+            {
+                std::string r = call_embed(idx, kcb, dcb, fcb, ps, *m, X, N, D);
+                alarm(0);
+                printf("R %ld %s\n", id, r.c_str());
+            }
+            else
+            {
+                // the application embeds the same data set once per thread of its own parallel region
+                std::vector<std::string> rs(par);
+                omp_set_dynamic(0);
+#pragma omp parallel num_threads(par)
+                {
+                    const int t = omp_get_thread_num();
+                    std::vector<IndexType> my_idx(idx);
+                    std::string r = call_embed(my_idx, kcb, dcb, fcb, ps, *m, X, N, D);
+                    if (t < par)
+                        rs[t] = r;
+                }
+                alarm(0);
+                printf("R %ld %s\n", id, rs[0].empty() ? "BADCASE no-thread-0" : rs[0].c_str());
+                for (int t = 1; t < par; t++)
+                    if (!rs[t].empty())
+                        printf("Q %ld %d %s\n", id, t, rs[t].c_str());
+            }
         }
         catch (const std::exception& ex)
         {
@@ -305,7 +363,7 @@ int main()
             for (auto& c : w)
                 if (c == '\n' || c == '\r')
                     c = ' ';
-            printf("R %ld UNDOC std::exception:%s\n", id, w.substr(0, 200).c_str());
+            printf("R %ld UNDOC find_neighbors-dump:%s\n", id, w.substr(0, 200).c_str());
         }
         catch (...)
         {
